@@ -27,7 +27,7 @@ func directedSpec(i int) (m, n, start, final int, pattern string, ok bool) {
 	return 0, 0, 0, 0, "", false
 }
 
-const nDirectedQuick = 48 + 192 + 768        // m = 1..3
+const nDirectedQuick = 48 + 192 + 768           // m = 1..3
 const nDirectedThorough = nDirectedQuick + 3072 // + m = 4
 
 // Run is the C15 workload.
